@@ -123,7 +123,7 @@ namespace MEDDLY {
                 const forest* fb, node_handle b)
         {
             MEDDLY_DCASSERT(OMEGA_INFINITY != b);
-            if (fa->isIdentityReduced()) return false;
+            if (fa->isIdentityReduced() || fb->isIdentityReduced()) return false;
             return (OMEGA_INFINITY == a) || (OMEGA_NORMAL == b);
         }
         inline static bool simplifiesToSecondArg(int L,
